@@ -48,6 +48,7 @@ class Unsupported(Exception):
 class NeedSplit(Exception):
     def __init__(self, cond):
         self.cond = cond
+        self.at = _fresh.value   # fresh-name counter at the split point
 
 
 class Raised(Exception):
@@ -57,7 +58,21 @@ class Raised(Exception):
         self.exc = exc
 
 
-_fresh = itertools.count()
+class _Counter:
+    """fresh-name counter; re-executions of one statement (path splits) replay the same names, see Executor.exec_stmt"""
+
+    def __init__(self):
+        self.value = 0
+        self.jumps = {}
+
+    def __next__(self):
+        if self.value in self.jumps:
+            self.value = self.jumps[self.value]
+        self.value += 1
+        return self.value - 1
+
+
+_fresh = _Counter()
 
 
 def fresh(name, sort):
@@ -813,6 +828,7 @@ class Executor:
         if self.npaths > 20000:
             raise Unsupported("path explosion")
         pre = st.fork()
+        mark = _fresh.value
         try:
             return self._exec_stmt(node, st)
         except Unsupported as e:
@@ -825,11 +841,28 @@ class Executor:
             return [(st, Outcome("raise", exc=r.exc))]
         except NeedSplit as ns:
             out = []
+            # both sides re-execute the statement from its pre-state and replay the fresh names drawn up to the split point (the split
+            # condition may mention values the statement created itself, e.g. the result of a contracted call); from the split point on
+            # the second side continues with names beyond everything the first side used, so no name is ever defined twice
+            top = _fresh.value
             for cond, tag in ((ns.cond, "T"), (z3.Not(ns.cond), "F")):
                 s2 = pre.fork()
                 s2.assume(cond, f"L{getattr(node, 'lineno', '?')}:split-{tag}")
-                if feasible(self.axioms + s2.pc):
-                    out += self.exec_stmt(node, s2)
+                _fresh.value = mark
+                saved_jump = _fresh.jumps.get(ns.at)
+                if tag == "F":
+                    _fresh.jumps[ns.at] = top
+                try:
+                    if feasible(self.axioms + s2.pc):
+                        out += self.exec_stmt(node, s2)
+                finally:
+                    if tag == "F":
+                        if saved_jump is None:
+                            _fresh.jumps.pop(ns.at, None)
+                        else:
+                            _fresh.jumps[ns.at] = saved_jump
+                top = max(top, _fresh.value)
+            _fresh.value = top
             return out
 
     def _exec_stmt(self, node, st):
@@ -1635,6 +1668,8 @@ class Executor:
         vals, zs = [], []
         is_and = isinstance(node.op, ast.And)
         for e in node.values:
+            if zs and ((is_and and z3.is_false(z3.simplify(zs[-1]))) or (not is_and and z3.is_true(z3.simplify(zs[-1])))):
+                break   # decided by a concrete operand: the remaining operands are never evaluated
             if zs:
                 guard = z3.And(*zs) if is_and else z3.Not(z3.Or(*zs))
                 mark = len(st.pc)
